@@ -6,6 +6,8 @@
 //     surface against the committed baseline (obligation: no new site);
 //   - gofn/clos/subseq correspondence of the hand-written models of goFn.Call,
 //     Closure.Call and strutil.HasSubseq with the real code (in-process);
+//   - docmerge/docshow/docfind/closrc (round 2, docmatch.go) the same for
+//     pkg/mods/doc/match.go and closure[def]/closure[body];
 //   - call/form        EXPLORATION (not the proof): every registered builtin and
 //     module function with adversarial arguments, and random forms with
 //     redirections, evaluated by the real interpreter in worker processes
@@ -116,6 +118,10 @@ func run(c *common.Ctx) error {
 		genGoFn(c, emit)
 		genClosure(c, emit)
 		genSubseq(c, emit)
+		genDocMerge(c, emit)
+		genDocShow(c, emit)
+		genDocFind(c, emit)
+		genCloSrc(c, emit)
 		// the enumeration evaluates elvish code in this process: when even that
 		// crashes, the same code is handed to a worker so that the crash is
 		// reported as the failing input it is
@@ -134,6 +140,7 @@ func run(c *common.Ctx) error {
 		}
 		genCalls(c, fns, emit)
 		genForms(c, emit)
+		genRelated(c, fns, emit)
 	}
 	// ---- execution -----------------------------------------------------------------
 	results := make([]opResult, len(ops))
@@ -170,6 +177,35 @@ func run(c *common.Ctx) error {
 				results[i].class, results[i].detail = "panic-has-subseq", pmsg
 			}
 			results[i].tag = "subseq-" + out
+		case "docmerge", "docshow", "docfind":
+			want := map[string]int{"docmerge": 2, "docshow": 4, "docfind": 4}[f[0]]
+			if len(f) != want {
+				results[i].impl = "bad-op"
+				continue
+			}
+			out, pmsg := common.Guard(20*time.Second, func() string {
+				switch f[0] {
+				case "docmerge":
+					return implDocMerge(f)
+				case "docshow":
+					return implDocShow(f)
+				}
+				return implDocFind(f)
+			})
+			results[i].impl = out
+			results[i].class, results[i].detail = oracleDoc(f, out, pmsg)
+			results[i].tag = tagDoc(f, out)
+		case "closrc":
+			if len(f) != 3 {
+				results[i].impl = "bad-op"
+				continue
+			}
+			out, pmsg := common.Guard(20*time.Second, func() string { return implCloSrc(f) })
+			results[i].impl = out
+			if out == "PANIC" || out == "TIMEOUT" || strings.Contains(out, "ERR") {
+				results[i].class, results[i].detail = "panic-closure-src-field", out+" "+pmsg+" :: "+unhexE(f[1])
+			}
+			results[i].tag = "closrc-" + strings.SplitN(out, " ", 2)[0] + "-lambdas"
 		case "inv":
 			st := statusOf(f[1])
 			switch {
@@ -370,9 +406,16 @@ func writeRun(c *common.Ctx, results []opResult) error {
 		"special types in ordinary positions) × 0..5 arguments of 8 kinds × 0..2 options; Closure.Call on closures of every shape " +
 		"with ≤3 parameters (rest position, option sets) × argument counts × option sets, plus random larger ones; " +
 		"strutil.HasSubseq on every pair over 11 symbols (valid, truncated and invalid UTF-8, U+FFFD) up to length 3×2 plus random " +
-		"longer ones. Exploration (labelled call-*/form-*): every non-denied command × every pool value in every position " +
+		"longer ones; sortAndMergeMatches on every list of up to 3 ranges over 0..3(4) plus random lists of up to 40 ranges (nested, chained, disjoint; " +
+		"more than 12 only with distinct From, where sort.Slice's order is determined); matchedBlock.Show on texts over 13 pieces " +
+		"(sentence ends, newlines, non-ASCII) with separated and with arbitrary (overlapping, out-of-range) matches; match+Show on generated Markdown " +
+		"(paragraphs, headings, code blocks, hard breaks) with 1..6 queries cut from the rendered blocks (nested, overlapping, adjacent, empty, absent); " +
+		"closure[def]/[body] of every lambda of generated `put {…} {…}` sources with nested lambdas, signatures, comments and continuations. " +
+		"Exploration (labelled call-*/form-*): every non-denied command × every pool value in every position " +
 		"(thorough; sampled in quick) + random arity/option/redirection combinations; forms: every head × every redirection shape " +
-		"+ random pipelines. Non-trivial = every op; distinct by op line",
+		"+ random pipelines + RELATED arguments: doc:find with nested queries cut from real documentation blocks, str:/re: commands with " +
+		"patterns/replacements derived from the subject, commands and index/assignment forms with indices derived from the container, md:show on " +
+		"raw-HTML-ish and delimiter pieces. Non-trivial = every op; distinct by op line",
 		Tags: map[string]int{}}
 	distinct := map[string]bool{}
 	for i, r := range results {
